@@ -21,6 +21,7 @@ Range(f) == {f[i] : i \in DOMAIN f}
 NoAddr == [clients |-> <<>>, sims |-> <<>>]
 TInit == Init /\ l = 1 /\ tid = -1 /\ addr = NoAddr
 TReset == /\ IsEvent("Reset")
+          /\ ctl' = [a \in Assoc |-> "none"]
           /\ st' = [s \in Sess |-> "absent"] /\ regs' = [s \in Sess |-> {}]
           /\ sess' = [a \in Assoc |-> NoSess] /\ circ' = [s \in Sess |-> [h \in Sims |-> "none"]]
           /\ hnd' = [s \in Sess |-> [h \in Sims |-> 0]]
@@ -34,7 +35,7 @@ TCfg == /\ IsEvent("Cfg")
         /\ UNCHANGED <<vars, tid>>
 
 \* the public state as projected by the driver: {"st":[..],"regs":[[h..]..],"sess":[..],"circ":[[..]..]}
-ProjOK(p) == /\ p.st = st' /\ p.sess = sess' /\ p.circ = circ'
+ProjOK(p) == /\ p.ctl = ctl' /\ p.st = st' /\ p.sess = sess' /\ p.circ = circ'
              /\ \A s \in Sess : Range(p.regs[s]) = regs'[s]
 HostOf(ip, port) == IF \E h \in Sims : addr.sims[h] = [ip |-> ip, port |-> port]
                     THEN CHOOSE h \in Sims : addr.sims[h] = [ip |-> ip, port |-> port] ELSE Unk
@@ -49,6 +50,14 @@ SentOK(pl) == \/ Rec.sent = Concrete(out', pl)
 
 TLogin == /\ IsEvent("Login") /\ Login(Rec.s)
           /\ Chk("Login.state env Login " \o ToString(Rec.i), ProjOK(Rec.proj)) /\ Chk("Login.sent env Login " \o ToString(Rec.i), Rec.sent = <<>>)
+          /\ UNCHANGED <<tid, addr>>
+\* {"ev":"Assoc","a":a,..} / {"ev":"Close","a":a,..}: the viewer's SOCKS control connection asked for its
+\* UDP association / ended
+TAssoc == /\ IsEvent("Assoc") /\ Associate(Rec.a)
+          /\ Chk("Assoc.state env Assoc " \o ToString(Rec.i), ProjOK(Rec.proj)) /\ Chk("Assoc.sent env Assoc " \o ToString(Rec.i), Rec.sent = <<>>)
+          /\ UNCHANGED <<tid, addr>>
+TClose == /\ IsEvent("Close") /\ CloseControl(Rec.a)
+          /\ Chk("Close.state env Close " \o ToString(Rec.i), ProjOK(Rec.proj)) /\ Chk("Close.sent env Close " \o ToString(Rec.i), Rec.sent = <<>>)
           /\ UNCHANGED <<tid, addr>>
 \* {"ev":"Reg","s":s,"g":handle (0: none),"h":h,...}: the choice is read off the observed regions
 TReg == /\ IsEvent("Reg")
@@ -84,7 +93,7 @@ THost == /\ IsEvent("H")
          /\ Chk("H.sent " \o Rec.k \o " " \o Rec.label \o " " \o ToString(Rec.i), SentOK(Rec.data))
          /\ Chk("H.state " \o Rec.k \o " " \o Rec.label \o " " \o ToString(Rec.i), ProjOK(Rec.proj))
          /\ UNCHANGED <<tid, addr>>
-TNext == TReset \/ TCfg \/ TLogin \/ TReg \/ TClient \/ THost
+TNext == TReset \/ TCfg \/ TAssoc \/ TClose \/ TLogin \/ TReg \/ TClient \/ THost
 TraceSpec == TInit /\ [][TNext]_tvars
 TraceAccepted == PrintT("TRACE_REACHED " \o ToString(TLCGet("stats").diameter - 1) \o " OF " \o ToString(Len(TraceLog)))
 ====
